@@ -254,42 +254,77 @@ func s2(w *World, r *Report) {
 	}
 	pf := needFn(r, "S-2", w, fref{pkgCT, "", "PreImageToSignTrxRLP"})
 	if pf != nil {
-		enc := w.callsTo(pf, fref{"github.com/ethereum/go-ethereum/rlp", "", "EncodeToBytes"})
-		ok := len(enc) == 1 && w.Canon(enc[0].Common().Args[0]) == "p0"
-		r.Check(ok, "S-2", "PreImage:rlp-of-tx", "the signed bytes are rlp.EncodeToBytes(tx)", "the pre-image is not the RLP of the given transaction", fnSite(w, pf))
-		if ok {
-			bz := extractOf(callValue(enc[0]), 0)
-			// Sig cleared before encoding
-			cleared := false
-			for _, fs := range w.fieldStores(pf) {
-				if fs.Field.Name() == "Sig" {
-					if c, isC := fs.Val.(*ssa.Const); isC && c.IsNil() && instrDominates(fs.In, enc[0]) {
-						cleared = true
+		// evaluated on the paths of the function (helpers, closures handed to helpers
+		// and deferred closures expanded): clear the signature, encode the tx, nothing else
+		isTx := func(s string) bool { return s == "p0" || s == "^p0" }
+		ev := func(in ssa.Instruction) string {
+			switch x := in.(type) {
+			case *ssa.Store:
+				fa, ok := x.Addr.(*ssa.FieldAddr)
+				if !ok || fieldName(fa.X.Type(), fa.Field) != "Sig" {
+					return ""
+				}
+				if n, _ := fieldOf(fa.X.Type(), fa.Field); n == nil || n.Obj().Name() != "Trx" {
+					return ""
+				}
+				if c, isC := x.Val.(*ssa.Const); isC && c.IsNil() {
+					return "SIGNIL\x01" + w.Canon(fa.X)
+				}
+				return "SIGSET\x01" + w.Canon(fa.X)
+			case ssa.CallInstruction:
+				if w.callIs(x.Common(), fref{"github.com/ethereum/go-ethereum/rlp", "", "EncodeToBytes"}) && len(x.Common().Args) == 1 {
+					return "ENC\x01" + w.Canon(x.Common().Args[0])
+				}
+			}
+			return ""
+		}
+		all := w.runUnder(pf, nil, ev)
+		okEnc, okClr := all.complete && all.ok > 0, all.complete && all.ok > 0
+		nEnc := 0
+		for _, evs := range all.okEvents {
+			enc, lastNil, lastSet := -1, -1, -1
+			cnt := 0
+			for i, e := range evs {
+				parts := strings.SplitN(e, "\x01", 2)
+				switch parts[0] {
+				case "ENC":
+					cnt++
+					if enc < 0 {
+						enc = i
+					}
+					if !isTx(parts[1]) {
+						okEnc = false
+					}
+				case "SIGNIL":
+					if enc < 0 && isTx(parts[1]) {
+						lastNil = i
+					}
+				case "SIGSET":
+					if enc < 0 {
+						lastSet = i
 					}
 				}
 			}
-			r.Check(cleared, "S-2", "PreImage:sig-cleared", "the signature field is empty in the signed encoding", "the signature is not cleared before encoding (nothing could ever verify)", fnSite(w, pf))
-			// what a successful call returns, with helper results resolved:
-			// append([]byte(Sprintf("...%s...%d...", chainId, len(rlp))), rlp...)
-			_ = bz
-			rePre := regexp.MustCompile(`^append\(\[\]byte\(fmt\.Sprintf\("[^"]*%s[^"]*%d[^"]*", \[p1, len\(rlp\.EncodeToBytes\(p0\)#0\)\]\)\), rlp\.EncodeToBytes\(p0\)#0\)$`)
-			w.shallowResolve = true
-			vals, complete := w.returnedValues(pf, 0, func(ssa.Value) (bool, bool) { return false, false }, 0)
-			w.shallowResolve = false
-			okp, nv := complete, 0
-			for _, v := range vals {
-				if c, isC := v.(*ssa.Const); isC && c.IsNil() {
-					continue
-				}
-				nv++
-				if !rePre.MatchString(w.canonResolved(v)) {
-					okp = false
-				}
+			if cnt == 0 {
+				continue // a path that returns an error before encoding
 			}
-			okp = okp && nv > 0
-			okr := okp
-			r.Check(okp, "S-2", "PreImage:prefix", "prefix is formatted from (chainId, len(rlp))", "the pre-image prefix does not contain the chain id and the encoded length", fnSite(w, pf))
-			r.Check(okr, "S-2", "PreImage:concat", "pre-image = prefix ++ rlp(tx)", "the pre-image is not prefix ++ rlp(tx)", fnSite(w, pf))
+			nEnc++
+			if cnt != 1 {
+				okEnc = false
+			}
+			if lastNil < 0 || lastSet > lastNil {
+				okClr = false
+			}
+		}
+		if nEnc == 0 {
+			okEnc, okClr = false, false
+		}
+		r.Check(okEnc, "S-2", "PreImage:rlp-of-tx", "the signed bytes are rlp.EncodeToBytes(tx)", "the pre-image is not the RLP of the given transaction", fnSite(w, pf))
+		if okEnc {
+			r.Check(okClr, "S-2", "PreImage:sig-cleared", "the signature field is empty in the signed encoding", "the signature is not cleared before encoding (nothing could ever verify)", fnSite(w, pf))
+			okp, why := w.preImageShape(pf)
+			r.Check(okp, "S-2", "PreImage:prefix", "prefix is formatted from (chainId, len(rlp))", "the pre-image prefix does not contain the chain id and the encoded length: "+why, fnSite(w, pf))
+			r.Check(okp, "S-2", "PreImage:concat", "pre-image = prefix ++ rlp(tx)", "the pre-image is not prefix ++ rlp(tx): "+why, fnSite(w, pf))
 		}
 	}
 	sf := needFn(r, "S-2", w, fref{"types/crypto", "", "Sig2Addr"})
@@ -306,7 +341,20 @@ func s2(w *World, r *Report) {
 			okr := false
 			for _, b := range sf.Blocks {
 				if ret, isR := lastInstr(b).(*ssa.Return); isR && w.errState(ret) == triNil {
-					okr = pub != nil && w.Canon(retResult(ret, 0)) == "crypto.Pub2Addr("+w.Canon(pub)+")"
+					if pub == nil {
+						continue
+					}
+					got := w.CanonI(retResult(ret, 0))
+					okr = got == "crypto.Pub2Addr("+w.Canon(pub)+")"
+					// or Pub2Addr's own body applied to the recovered key
+					if p2a := w.Func("types/crypto", "Pub2Addr"); !okr && p2a != nil && len(p2a.Params) == 1 {
+						if res := w.simpleHelper(p2a); res != nil {
+							w.inlineEnv = append(w.inlineEnv, map[*ssa.Parameter]string{p2a.Params[0]: w.Canon(pub)})
+							want := w.CanonI(res)
+							w.inlineEnv = w.inlineEnv[:len(w.inlineEnv)-1]
+							okr = got == want
+						}
+					}
 				}
 			}
 			r.Check(okr, "S-2", "Sig2Addr:address-of-recovered-key", "the address returned is derived from the recovered key", "the address returned is not that of the recovered key", fnSite(w, sf))
@@ -689,28 +737,12 @@ func (w *World) decodeRLPTable(r *Report) map[int64]string {
 		r.Undecided("S-5", "DecodeRLP", "Trx.DecodeRLP not found")
 		return nil
 	}
-	table := map[int64]string{}
-	cf := w.constFlowOf(fn, universe(), func(c string) (int64, bool) {
-		// (int32(new(types.trxRPL).Type) == K)
-		if strings.HasPrefix(c, "(int32(") && strings.Contains(c, ".Type) == ") {
-			var k int64
-			if _, err := fmt.Sscan(c[strings.LastIndex(c, "== ")+3:len(c)-1], &k); err == nil {
-				return k, true
-			}
-		}
-		return 0, false
-	})
-	for _, b := range fn.Blocks {
-		for _, in := range b.Instrs {
-			mi, ok := in.(*ssa.MakeInterface)
-			if !ok || !strings.Contains(typeStr(mi.X.Type()), "TrxPayload") {
-				continue
-			}
-			for k := range cf.in[b] {
-				if len(cf.in[b]) == 1 {
-					table[k] = typeStr(mi.X.Type())
-				}
-			}
+	// evaluated per type constant on the paths of DecodeRLP, under "the wire payload
+	// is not empty" (an empty one leaves the payload nil for every type)
+	table := w.payloadTableOf(fn, regexp.MustCompile(`^\(int32\(.*\.Type\) == (-?\d+)\)$`), AR(`^len\(.*\.Payload\)$`, ">", "^0$"))
+	for k, v := range table {
+		if k == 0 || strings.HasPrefix(v, "!") || strings.HasPrefix(v, "?") || v == "" {
+			delete(table, k)
 		}
 	}
 	if len(table) < 6 {
@@ -718,4 +750,244 @@ func (w *World) decodeRLPTable(r *Report) map[int64]string {
 		return nil
 	}
 	return table
+}
+
+// ---- value provenance through helpers, closures handed to helpers and parameters
+
+// vframe: an activation in a chain of (virtually) expanded calls.
+type vframe struct {
+	fn   *ssa.Function
+	args []ssa.Value // the call's arguments, values of the frame `up`
+	up   *vframe
+}
+
+type rootVal struct {
+	v  ssa.Value
+	fr *vframe
+}
+
+// rootsOf: where a value comes from, looking through phis, results of module
+// functions (every non-nil return), parameters (the caller's argument), calls
+// through a function-typed parameter (the closure the caller passed) and free
+// variables of closures (the enclosing activation's value).
+func (w *World) rootsOf(v ssa.Value, fr *vframe, depth int, out *[]rootVal, seen map[ssa.Value]bool) {
+	v = stripConv(v)
+	if depth > 10 || seen[v] {
+		return
+	}
+	seen[v] = true
+	defer delete(seen, v)
+	frameOf := func(f *ssa.Function) *vframe {
+		for x := fr; x != nil; x = x.up {
+			if x.fn == f {
+				return x
+			}
+		}
+		return nil
+	}
+	through := func(call *ssa.Call, idx int) bool {
+		cal := call.Common().StaticCallee()
+		args := call.Common().Args
+		calFr := fr
+		if cal == nil && !call.Common().IsInvoke() {
+			// a function value: local closure, or a function-typed parameter
+			var fv ssa.Value = call.Common().Value
+			var rs []rootVal
+			w.rootsOf(fv, fr, depth+1, &rs, seen)
+			if len(rs) == 1 {
+				if f, rcv := w.calleeOfValue(rs[0].v); f != nil && rcv == nil {
+					cal = f
+				}
+			}
+		}
+		if cal == nil || !w.InModule(cal) || cal.Blocks == nil || len(cal.Params) != len(args) {
+			return false
+		}
+		nf := &vframe{fn: cal, args: args, up: calFr}
+		n := 0
+		for _, b := range cal.Blocks {
+			ret, ok := lastInstr(b).(*ssa.Return)
+			if !ok || b == cal.Recover || idx >= len(ret.Results) {
+				continue
+			}
+			rv := retResult(ret, idx)
+			if c, isC := rv.(*ssa.Const); isC && c.IsNil() {
+				continue
+			}
+			n++
+			w.rootsOf(rv, nf, depth+1, out, seen)
+		}
+		return n > 0
+	}
+	switch x := v.(type) {
+	case *ssa.Phi:
+		for _, e := range x.Edges {
+			if e != ssa.Value(x) {
+				w.rootsOf(e, fr, depth+1, out, seen)
+			}
+		}
+		return
+	case *ssa.Extract:
+		if call, ok := x.Tuple.(*ssa.Call); ok && through(call, x.Index) {
+			return
+		}
+	case *ssa.Call:
+		if x.Common().Signature().Results().Len() == 1 {
+			if _, isB := x.Common().Value.(*ssa.Builtin); !isB && through(x, 0) {
+				return
+			}
+		}
+	case *ssa.Parameter:
+		if fr != nil && fr.fn == x.Parent() {
+			for j, p := range fr.fn.Params {
+				if p == x && j < len(fr.args) {
+					w.rootsOf(fr.args[j], fr.up, depth+1, out, seen)
+					return
+				}
+			}
+		}
+	case *ssa.FreeVar:
+		if bnd := w.freeVarBinding(x); bnd != nil && x.Parent() != nil && x.Parent().Parent() != nil {
+			pfr := frameOf(x.Parent().Parent())
+			if pfr == nil && fr != nil {
+				pfr = fr.up
+			}
+			w.rootsOf(bnd, pfr, depth+1, out, seen)
+			return
+		}
+	case *ssa.UnOp:
+		// a local copied through a cell (`v := x` captured by a closure)
+		if x.Op == token.MUL {
+			if a, isA := x.X.(*ssa.Alloc); isA {
+				if sv := singleStore(a); sv != nil {
+					w.rootsOf(sv, fr, depth+1, out, seen)
+					return
+				}
+			}
+			if fv, isFV := x.X.(*ssa.FreeVar); isFV {
+				w.rootsOf(fv, fr, depth+1, out, seen)
+				return
+			}
+		}
+	case *ssa.Alloc:
+		if sv := singleStore(x); sv != nil {
+			w.rootsOf(sv, fr, depth+1, out, seen)
+			return
+		}
+	}
+	*out = append(*out, rootVal{v, fr})
+}
+
+func (w *World) singleRoot(v ssa.Value, fr *vframe) (rootVal, bool) {
+	var rs []rootVal
+	w.rootsOf(v, fr, 0, &rs, map[ssa.Value]bool{})
+	if len(rs) == 0 {
+		return rootVal{}, false
+	}
+	for _, r := range rs[1:] {
+		if r.v != rs[0].v {
+			return rootVal{}, false
+		}
+	}
+	return rs[0], true
+}
+
+// preImageShape: every non-nil pre-image returned by pf is
+// append([]byte(Sprintf("…%s…%d…", chainId, len(X))), X...) with X the bytes of
+// rlp.EncodeToBytes(tx), tx and chainId being pf's own parameters.
+func (w *World) preImageShape(pf *ssa.Function) (bool, string) {
+	top := &vframe{fn: pf}
+	var rets []rootVal
+	for _, b := range pf.Blocks {
+		ret, ok := lastInstr(b).(*ssa.Return)
+		if !ok || b == pf.Recover || len(ret.Results) == 0 {
+			continue
+		}
+		rv := retResult(ret, 0)
+		if c, isC := rv.(*ssa.Const); isC && c.IsNil() {
+			continue
+		}
+		w.rootsOf(rv, top, 0, &rets, map[ssa.Value]bool{})
+	}
+	if len(rets) == 0 {
+		return false, "no pre-image is returned"
+	}
+	isRLP := func(v ssa.Value, fr *vframe) bool {
+		rt, ok := w.singleRoot(v, fr)
+		if !ok {
+			return false
+		}
+		ex, ok := rt.v.(*ssa.Extract)
+		if !ok || ex.Index != 0 {
+			return false
+		}
+		call, ok := ex.Tuple.(*ssa.Call)
+		if !ok || !w.callIs(call.Common(), fref{"github.com/ethereum/go-ethereum/rlp", "", "EncodeToBytes"}) || len(call.Common().Args) != 1 {
+			return false
+		}
+		arg, ok := w.singleRoot(call.Common().Args[0], rt.fr)
+		return ok && arg.v == ssa.Value(pf.Params[0])
+	}
+	for _, rt := range rets {
+		app, ok := rt.v.(*ssa.Call)
+		if !ok {
+			return false, "the returned value is " + w.Canon(rt.v)
+		}
+		bi, ok := app.Common().Value.(*ssa.Builtin)
+		if !ok || bi.Name() != "append" || len(app.Common().Args) != 2 {
+			return false, "the returned value is not prefix ++ bytes"
+		}
+		if !isRLP(app.Common().Args[1], rt.fr) {
+			return false, "what is appended is not the RLP of the transaction"
+		}
+		// the prefix
+		pre, ok := w.singleRoot(app.Common().Args[0], rt.fr)
+		if !ok {
+			return false, "the prefix is ambiguous"
+		}
+		if cv, isCv := pre.v.(*ssa.Convert); isCv { // []byte(string)
+			pre, ok = w.singleRoot(cv.X, pre.fr)
+			if !ok {
+				return false, "the prefix is ambiguous"
+			}
+		}
+		sp, ok := pre.v.(*ssa.Call)
+		if !ok || !w.callIs(sp.Common(), fref{"fmt", "", "Sprintf"}) || len(sp.Common().Args) != 2 {
+			return false, "the prefix is not formatted with fmt.Sprintf"
+		}
+		fc, ok := sp.Common().Args[0].(*ssa.Const)
+		if !ok || fc.Value == nil || fc.Value.Kind() != constant.String {
+			return false, "the prefix format is not a constant"
+		}
+		format := constant.StringVal(fc.Value)
+		is, id := strings.Index(format, "%s"), strings.Index(format, "%d")
+		if is < 0 || id < 0 || is > id {
+			return false, "the prefix format does not contain %s (chain id) followed by %d (length)"
+		}
+		var elems []ssa.Value
+		if sl, isSl := sp.Common().Args[1].(*ssa.Slice); isSl {
+			if a, isA := sl.X.(*ssa.Alloc); isA {
+				elems, _ = varargElems(a)
+			}
+		}
+		if len(elems) != 2 {
+			return false, "the prefix is not formatted from two values"
+		}
+		chain, ok := w.singleRoot(elems[0], pre.fr)
+		if !ok || chain.v != ssa.Value(pf.Params[1]) {
+			return false, "the first formatted value is not the chain id"
+		}
+		ln, ok := stripConv(elems[1]).(*ssa.Call)
+		if mi, isMI := stripConv(elems[1]).(*ssa.MakeInterface); isMI {
+			ln, ok = stripConv(mi.X).(*ssa.Call)
+		}
+		if !ok {
+			return false, "the second formatted value is not a length"
+		}
+		lb, isB := ln.Common().Value.(*ssa.Builtin)
+		if !isB || lb.Name() != "len" || !isRLP(ln.Common().Args[0], pre.fr) {
+			return false, "the second formatted value is not the length of the RLP bytes"
+		}
+	}
+	return true, ""
 }
